@@ -119,5 +119,3 @@ pub fn r_deep(txn: &yrs::TransactionMut, evs: &yrs::types::Events) -> String {
     format!("deep[{}]", v.join(" ; "))
 }
 pub type Log = std::sync::Arc<std::sync::Mutex<Vec<String>>>;
-#[allow(dead_code)]
-pub fn unused(_: &Any, _: &Out) {}
